@@ -22,6 +22,9 @@ Opts == {"pos", "frq", "bas", "nn"}
 \* doc id of the i-th posting (1-based): steps of `step`, one big gap after the middle posting
 DocAt(len, step, bits, i) == (i - 1) * step + (IF bits > 0 /\ i > (len + 1) \div 2 THEN 2 ^ bits ELSE 0)
 
+Mixed == <<1, 2, 1, 3, 2, 1, 3, 3, 2, 1, 1, 2>>
+FieldAt(pat, nf, i) == IF pat = "roundrobin" THEN ((i - 1) % nf) + 1 ELSE (Mixed[((i * 5) % 12) + 1] % nf) + 1
+
 VARIABLE done
 GInit ==
   /\ done = FALSE /\ plist = <<>> /\ cur = TERMINATED /\ seen = <<>>
@@ -31,6 +34,12 @@ GInit ==
        PrintT(<<"CASE", ToJson([what |-> "shape", len |-> n, step |-> st, bits |-> b, opt |-> o,
                                  tf |-> (CHOOSE t \in Tfs : TRUE), last_doc |-> DocAt(n, st, b, n), mid |-> (n + 1) \div 2])>>)
   /\ \A t \in Tfs : \A o \in Opts : PrintT(<<"CASE", ToJson([what |-> "tf", tf |-> t, opt |-> o])>>)
+  \* documents with many (field, value) pairs, two or three text fields interleaved: the order in which the
+  \* pairs are added (field numbers), for numbers of pairs around ManyValuesLimit and well above
+  /\ \A nf \in {2, 3} : \A n \in {ManyValuesLimit - 1, ManyValuesLimit, ManyValuesLimit + 1, ManyValuesLimit + 4, 2 * ManyValuesLimit, 5 * ManyValuesLimit} :
+       \A pat \in {"roundrobin", "mixed"} :
+         PrintT(<<"CASE", ToJson([what |-> "many", nfields |-> nf, pairs |-> n, pattern |-> pat,
+                                   order |-> [i \in 1..n |-> FieldAt(pat, nf, i)]])>>)
 GNext == done' = TRUE /\ UNCHANGED ivars
 GSpec == GInit /\ [][GNext]_<<done, ivars>>
 =============================================================================
